@@ -27,6 +27,7 @@ import sfs2coq  # noqa: E402
 import marginals2coq  # noqa: E402
 import statespace2coq  # noqa: E402
 import mutation2coq  # noqa: E402
+import coalescent2coq  # noqa: E402
 
 # one entry per translated source file: translator module, source, committed generated file, equivalence proofs
 TIES = {
@@ -40,6 +41,7 @@ TIES = {
     'sfs': dict(mod=sfs2coq, src='distributions.py', gen='SfsGen', equiv='GenSfsEquiv'),
     'marginals': dict(mod=marginals2coq, src='distributions.py', gen='MarginalsGen', equiv='GenMarginalsEquiv'),
     'statespace': dict(mod=statespace2coq, src='state_space.py', gen='StateSpaceGen', equiv='GenStateSpaceEquiv'),
+    'coalescent': dict(mod=coalescent2coq, src='distributions.py', gen='CoalescentGen', equiv='GenCoalescentEquiv'),
     'mutation': dict(mod=mutation2coq, src='', gen='MutationGen', equiv='GenMutationEquiv', src_is_dir=True),
     'guards': dict(mod=guards2coq, src='', gen='GuardsGen', equiv='GenGuardsEquiv', src_is_dir=True),
     'inference': dict(mod=inference2coq, src='inference.py', gen='InferenceGen', equiv='GenInferenceEquiv'),
